@@ -223,7 +223,8 @@ def h_annot_lookup : Handler := fun j => do
   let kindStr : Option Kind → Json := fun k => match k with
     | some .real => "real" | some .complex => "complex" | some .timeDomain => "time" | none => Json.null
   pure (Json.mkObj [("ctor", ctorNameOfType ty), ("kind", kindStr (declaredKind ty)), ("spec_kind", kindStr (specKind ty)),
-    ("params", jsonStrs (filterParams ty keys)),
+    ("params", jsonStrs (filterParams ty keys)), ("peak", declaredPeak ty),
+    ("spec_peak", match specKind ty with | some k => Json.bool (specPeak k) | none => Json.null),
     ("loops", Json.arr ((CC.Gen.Annot.annotation_loops.map fun (a, b) => Json.arr #[Json.str a, Json.str b]).toArray))])
 
 def handlers : List (String × Handler) :=
